@@ -17,9 +17,10 @@ def level_plan(tier):
         (3, 'core', 'core', lambda i, n: 'withA', ('chain',)),
     ]
     if tier == 'interp':
-        # the part of the space repeated under the other installed interpreters in the quick tier: one scope under the module, every kind and
-        # slot, the mid bundle alphabet
-        return [(1, 'full', 'full', lambda i, n: 'mid', (False,))]
+        # the part of the space repeated under the other installed interpreters in the quick tier: one scope under the module (every kind and
+        # slot, mid bundle alphabet), two scopes over the core kinds / slots with the core and the `withA` bundle alphabets
+        return [(1, 'full', 'full', lambda i, n: 'mid', (False,)), (2, 'core', 'core', lambda i, n: 'core', (False,)),
+                (2, 'core', 'core', lambda i, n: 'withA', (False,))]
     if tier == 'quick':
         return quick
     return quick + [
